@@ -14,7 +14,7 @@ serialised; after the operation every snapshot must be unchanged.
 import json
 import os
 
-from prosemirror.model import Fragment, Mark, Node, Slice
+from prosemirror.model import Fragment, Mark, Node, Schema, Slice
 from prosemirror.transform import Mapping, Step, StepMap, Transform
 
 from .. import core, gen, ops, schemas
@@ -61,6 +61,31 @@ def sub_objects(doc, rng, limit=12):
     return out
 
 
+_STYLE = None
+
+
+def style_schema():
+    """the basic schema with the style parse rules upstream's basic schema has for strong / em, including the mark-clearing ones"""
+    global _STYLE
+    if _STYLE is None:
+        from prosemirror.schema.basic import schema as basic
+        nodes = {k: dict(v) for k, v in basic.spec["nodes"].items()}
+        marks = {k: dict(v) for k, v in basic.spec["marks"].items()}
+        marks["strong"]["parseDOM"] = [{"tag": "strong"}, {"tag": "b"},
+                                       {"style": "font-weight=400", "clear_mark": lambda m: m.type.name == "strong"},
+                                       {"style": "font-weight=normal", "clear_mark": lambda m: m.type.name == "strong"},
+                                       {"style": "font-weight=bold"}, {"style": "font-weight=700"}]
+        marks["em"]["parseDOM"] = [{"tag": "i"}, {"tag": "em"}, {"style": "font-style=italic"},
+                                   {"style": "font-style=normal", "clear_mark": lambda m: m.type.name == "em"}]
+        _STYLE = Schema({"nodes": nodes, "marks": marks})
+    return _STYLE
+
+
+def lxml_fragment(html):
+    import lxml.html
+    return lxml.html.fromstring(html)
+
+
 def run(ctx):
     rng = ctx.rng
     # ---- translator + Lean
@@ -103,6 +128,11 @@ def run(ctx):
                 if kind == "transform-op":
                     name, args, thunk = ops.plan_op(rng, info, tr.doc, docs)
                     desc.update(ops.describe(name, args))
+                    # what the caller hands to the operation (slices, nodes, marks) stays the caller's: snapshotted before, compared after
+                    for a in args:
+                        if isinstance(a, (Slice, Node, Mark)):
+                            live.append(("argument of " + name, a))
+                            before.append(("argument of " + name, a, snap(a)))
                     ops.run_op(tr, thunk)
                     new_objs += [tr.doc] + tr.steps[-2:] + [m for m in tr.mapping.maps[-2:]]
                 elif kind == "query":
@@ -189,12 +219,30 @@ def run(ctx):
                     mp.append_mapping_inverted(tr.mapping)
                     mp.slice(0, 1).map(rng.randint(0, 5))
                     tr.mapping.map(rng.randint(0, 5)), tr.mapping.map_result(rng.randint(0, 5), -1)
+                elif kind == "dom" and info.name not in ("basic", "list"):
+                    # style rules, among them one that *clears* a mark (upstream's `font-weight=400` rule of `strong`): the
+                    # parser collects marks to add and to remove starting from the shared empty mark set
+                    from prosemirror.model import DOMParser
+                    desc.update({"op": "DOM parse with style rules"})
+                    ss = style_schema()
+                    w = rng.choice(["400", "normal", "bold", "700"])
+                    html = rng.choice([
+                        '<p><b>bold <span style="font-weight:%s">x</span> y</b> z</p>' % w,
+                        '<p><strong>a<em style="font-weight: %s; font-style: normal">b</em></strong></p>' % w,
+                        '<p style="font-weight:%s">plain <b>b</b></p><p><i>i <span style="font-style:normal">n</span></i></p>' % w])
+                    r = outcome(lambda: DOMParser.from_schema(ss).parse(lxml_fragment("<div>" + html + "</div>")), 10)
+                    ctx.count("dom-style-parse:" + r[0])
+                    if r[0] == "ok":
+                        new_objs.append(r[1])
                 elif kind == "dom" and info.name in ("basic", "list"):
                     from prosemirror.model import DOMParser, DOMSerializer
                     d = rng.choice(docs + [tr.doc])
                     desc.update({"op": "DOM round trip"})
                     html = str(DOMSerializer.from_schema(schema).serialize_fragment(d.content))
-                    r = outcome(lambda: DOMParser.from_schema(schema).parse("<div>" + html + "</div>"), 10)
+                    r = outcome(lambda: DOMParser.from_schema(schema).parse(lxml_fragment("<div>" + html + "</div>")), 10)
+                    ctx.count("dom-roundtrip:" + r[0])
+                    if r[0] == "ok":
+                        new_objs.append(r[1])
             except Exception as e:  # noqa: BLE001  exceptions of the operation itself are other properties' business
                 desc["exception"] = type(e).__name__
             history.append(desc)
